@@ -37,7 +37,11 @@ CLAIM = dict(
           "at that offset if the ragged block has a non-TRANSPARENT value there and its old value otherwise (read-back, "
           "frame, clipping, transparency in one per-cell equation). Get-after-set laws: C17_pixel_readback, C17_cell_readback (incl. the shared "
           "rows), C17_mapget_after_mapset, C17_flagget_after_flagreset, C17_noteget_after_noteset (None fields keep their "
-          "value), C17_changet_after_chanset. C17_refines_nogfx / C17_nogfx_refuses: a Map without a Gfx behaves identically "
+          "value), C17_changet_after_chanset. C17_rect_pixels_at (no hypothesis on memory): the picture returned by get_rect_pixels has 8h "
+          "rows of 8w pixels and pixel (X, Y) is pixel (X mod 8, Y mod 8) of the tile in cell (x + X/8, y + Y/8) as get_rect_tiles "
+          "reads it (0 right of column 127, nothing wraps), tile 0 empty, tile t the 8x8 block of the sheet at ((t mod 16)*8, "
+          "(t/16)*8); C17_rect_pixels_readback: the same after set_rect_tiles, the tile being the block's value where the block "
+          "covers the cell. C17_nogfx_refuses_pixels: without a Gfx get_rect_pixels raises AssertionError. C17_refines_nogfx / C17_nogfx_refuses: a Map without a Gfx behaves identically "
           "on calls confined to rows 0-31 and refuses cell accesses below. C17_monitor_sound / C17_model_holds(_seq): the "
           "extracted monitor predicate says exactly 'no raise, the plain model's value and memory', and the code's model "
           "passes it on every call and history. Bit-level facts are complete vm_compute sweeps over the regenerated kernels "
@@ -49,7 +53,8 @@ CLAIM = dict(
     note=("Three clipping defects found by this check were repaired in the implementation (findings/known_findings.json, fixed): "
           "set_sprite clipped with > 128 (column 128 wrapped into the next row, row 128 raised IndexError), set_rect_tiles "
           "clipped rows with > 127 (AssertionError below row 63), get_rect_tiles asserted instead of zero-filling below the "
-          "map. Trusted: Coq kernel+VM, translator, extraction, OCaml glue, Spec/PlainMem.v as a faithful reading of the "
+          "map. get_rect_pixels keeps `assert 0 <= y + height <= 64` (rectangles extending below the map are refused although "
+          "get_rect_tiles zero-fills them): taken as part of this getter's contract, see notes/C17.md 'Suspicious'. Trusted: Coq kernel+VM, translator, extraction, OCaml glue, Spec/PlainMem.v as a faithful reading of the "
           "docstrings and the PICO-8 memory layout, the in_contract ranges. Out-of-contract calls are only compared "
           "model-vs-implementation (exception kinds)."),
     technique='Coq refinement proof (sweeps on regenerated kernels + induction over loops) + correspondence + extracted plain model as monitor',
